@@ -51,6 +51,14 @@ impl Gen {
             }
             "distbuild" => Some(("distbuild".into(), distinfos::build(rng))),
             "verify" => Some(("verify".into(), distinfos::verify(rng))),
+            // (the first two files of a run: one record with one list line of more than 64 KiB that
+            // nothing else in the file overrides - SCAN_DEPENDS, then ALL_DEPENDS)
+            "scanindex" if i < 2 => {
+                let long = if i == 0 { format!("SCAN_DEPENDS={}", (0..3000).map(|k| format!("/usr/pkgsrc/mk/bsd.file-{}.mk", k)).collect::<Vec<_>>().join(" ")) }
+                           else { format!("ALL_DEPENDS={}", (0..2400).map(|k| format!("lib{:05}>=1.{}:../../devel/lib{:05}", k, k % 7, k)).collect::<Vec<_>>().join(" ")) };
+                let ls = vec!["PKGNAME=big-1.0".to_string(), "PKG_LOCATION=devel/big".to_string(), long, "MAINTAINER=x@example.org".to_string(), "PKGNAME=next-2.0".to_string()];
+                Some(("scanindex".into(), json!({"lines": ls.iter().map(|l| codes(l)).collect::<Vec<_>>(), "err_at": 0, "final_nl": "T", "err_kind": "Other", "err_mid": "F"})))
+            }
             "scanindex" => {
                 let (ls, err, nl) = scanindexes::lines(rng);
                 Some(("scanindex".into(), json!({"lines": ls.iter().map(|l| codes(l)).collect::<Vec<_>>(), "err_at": err, "final_nl": tf(nl),
@@ -117,8 +125,40 @@ impl Gen {
                 };
                 Some(("metaname".into(), json!({"f": codes(&f)})))
             }
+            // (the first two lists of a run: a short list that parses, with one line of 65 536 / 65 539
+            // bytes - a file name, a command argument)
+            "plist" if i < 2 => {
+                let mut t = b"@name pkg-1.0\nbin/a\n".to_vec();
+                if i == 0 { t.extend(std::iter::repeat(b'f').take(65536)); } else { t.extend_from_slice(b"@comment "); t.extend(std::iter::repeat(b'c').take(65530)); }
+                t.extend_from_slice(b"\nbin/b\n");
+                Some(("plist".into(), json!({"bytes": bytes_json(&t)})))
+            }
             "plist" => Some(("plist".into(), json!({"bytes": bytes_json(&plists::plist(rng))}))),
             "plistline" => Some(("plistline".into(), json!({"bytes": bytes_json(&plists::line(rng))}))),
+            "values" => {
+                // two texts that are often equal, often spellings of one value, often near misses
+                let what = *rng.pick(&["pkgname", "pkgpath", "pattern", "depend"]);
+                // (mostly well-formed paths and dependencies, so that the comparisons have something to compare)
+                let good_path = |rng: &mut Rng| format!("{}{}{}{}{}", rng.pick_str(&["", "", "../../", "..//../"]), rng.pick_str(&["devel", "www", "x11", "d\u{e9}v", "a"]),
+                                                        rng.pick_str(&["/", "/", "//", "/./"]), rng.pick_str(&["a", "foo", "py-b", "lib2", "\u{65e5}"]), rng.pick_str(&["", "", "/", "/."]));
+                let a = match what {
+                    "pkgname" => names::pkgname(rng),
+                    "pkgpath" => if rng.chance(2, 3) { good_path(rng) } else { names::pkgpath(rng) },
+                    "pattern" => patterns::any(rng).0,
+                    _ => if rng.chance(2, 3) { format!("{}:{}", patterns::dewey(rng).0.replace(':', ""), good_path(rng)) } else { names::depend(rng) },
+                };
+                let b = match rng.below(6) {
+                    0 | 1 => a.clone(),
+                    2 if what == "pkgpath" || what == "depend" => a.replacen("../../", "", 1),
+                    2 => a.to_uppercase(),
+                    3 if what == "pkgpath" => format!("../../{}", a),
+                    3 if what == "depend" => a.replacen(':', ":../../", 1),
+                    3 => format!("{}0", a),
+                    4 => { let cs: Vec<char> = a.chars().collect(); if cs.is_empty() { "x".into() } else { let i = rng.below(cs.len()); cs.iter().enumerate().filter(|(k, _)| *k != i).map(|(_, c)| *c).collect() } }
+                    _ => match what { "pkgname" => names::pkgname(rng), "pkgpath" => names::pkgpath(rng), "pattern" => patterns::any(rng).0, _ => names::depend(rng) },
+                };
+                Some(("values".into(), json!({"what": what, "a": codes(&a), "b": codes(&b)})))
+            }
             "errmsg" => {
                 let (what, v): (&str, Value) = match rng.below(8) {
                     0 => ("pattern", codes(&patterns::any(rng).0)),
@@ -132,7 +172,7 @@ impl Gen {
                 };
                 Some(("errmsg".into(), json!({"what": what, "s": v})))
             }
-            "digest" => Some(("digest".into(), digests::case(rng))),
+            "digest" => Some(("digest".into(), digests::case_i(rng, i))),
             "algname" => Some(("algname".into(), json!({"s": codes(&digests::algname(rng))}))),
             "hashvec" => Some(("hashvec".into(), json!({"data": bytes_json(&digests::vector(rng, i))}))),
             "sumhist" => {
